@@ -425,7 +425,7 @@ def write_replay(prop, key, contract: Contract, rec):
 
     simple_ghosts = contract.ghost and all(isinstance(v, str) and v in ("int", "str", "bool") for v in contract.ghost.values())
     SIMPLE = ("str", "int", "bool", "str|None", "dict[str|None,str]", "dict[str,str]")
-    simple_params = bool(contract.params) and all((isinstance(v, str) and v.strip() in SIMPLE) or not isinstance(v, str) and not callable(v)
+    simple_params = bool(contract.params) and all(k == "cls" or (isinstance(v, str) and v.strip() in SIMPLE) or not isinstance(v, str) and not callable(v)
                                                   for k, v in contract.params.items())
     no_model = "model" not in rec or abstract(rec["model"])
     if (simple_ghosts or (not contract.ghost and simple_params and no_model)) and not contract.replay:
